@@ -1,0 +1,25 @@
+//go:build verif
+
+package metrics
+
+import "sort"
+
+// VerifTaskNum returns the task ids behind the per-state task gauges
+// (initial, running, paused), sorted. Only in builds with the verif tag.
+func (t *TaskNumMetric) VerifTaskNum() (initial, running, paused []string) {
+	t.numLock.RLock()
+	defer t.numLock.RUnlock()
+	for k := range t.initialTaskMap {
+		initial = append(initial, k)
+	}
+	for k := range t.runningTaskMap {
+		running = append(running, k)
+	}
+	for k := range t.pauseTaskMap {
+		paused = append(paused, k)
+	}
+	sort.Strings(initial)
+	sort.Strings(running)
+	sort.Strings(paused)
+	return initial, running, paused
+}
